@@ -30,6 +30,16 @@ fn one(m: M) -> Exp {
 }
 
 pub const NEXT_NODE_ID: usize = 1000;
+thread_local! {
+    static NEXT_ID: std::cell::Cell<usize> = std::cell::Cell::new(NEXT_NODE_ID);
+}
+/// the id the next GRAPH.NODE*ADD will hand out (the harness sets the real counter to the same value)
+pub fn next_node_id() -> usize {
+    NEXT_ID.with(|c| c.get())
+}
+pub fn set_next_node_id(v: usize) {
+    NEXT_ID.with(|c| c.set(v))
+}
 
 pub fn clamp(idx: i32, n: usize) -> usize {
     let hi = n as i64 - 1;
@@ -1575,8 +1585,8 @@ pub fn spec(name: &str, m0: &M) -> Exp {
         }
         "GRAPH.NODE*ADD" => {
             let st = m.i.remove(0);
-            m.graphs[0].nodes.insert(NEXT_NODE_ID, st);
-            m.i.insert(0, NEXT_NODE_ID as i32);
+            m.graphs[0].nodes.insert(next_node_id(), st);
+            m.i.insert(0, next_node_id() as i32);
             one(m)
         }
         "GRAPH.NODE*SETSTATE" => {
